@@ -1,5 +1,6 @@
 import VtModel.Pyramid
 import VtModel.Geo
+import VtModel.BBoxExtra
 /-! Line protocol for stream `C15` (boxes, pyramids, geo). -/
 namespace VtModel.BBoxProto
 open VtModel VtModel.BBox
@@ -146,6 +147,30 @@ def handle (args : List String) : String :=
   | ["g_rt", a] => match parseBox a with
     | some a => showO render (Geo.roundTrip a)
     | none => "bad-op"
+  -- further functions (VtModel.BBoxExtra)
+  | ["inc3", a, x, y, z] => match parseBox a, parseNats [x, y, z] with
+    | some a, some [x, y, z] => showO render (BBoxExtra.includeCoord3 a x y z)
+    | _, _ => "bad-op"
+  | ["ipyr", a, p] => match parseBox a, parsePyr p with
+    | some a, some p => showO render (BBoxExtra.intersectPyramid a p)
+    | _, _ => "bad-op"
+  | ["cbi3", a, i] => match parseBox a, i.toNat? with
+    | some a, some i => showO (fun (c : Nat × Nat × Nat) => s!"{c.1},{c.2.1},{c.2.2}") (BBoxExtra.coord3ByIndex a i)
+    | _, _ => "bad-op"
+  | ["valid", x, y, z] => match parseNats [x, y, z] with
+    | some [x, y, z] => b2s (BBoxExtra.isValid x y z)
+    | _ => "bad-op"
+  | ["sidx", x, y, z] => match parseNats [x, y, z] with
+    | some [x, y, z] => showO toString (BBoxExtra.sortIndex x y z)
+    | _ => "bad-op"
+  | ["p_good", p] => match parsePyr p with
+    | some p =>
+      let o : Option Nat → String := fun | some n => toString n | none => "-"
+      s!"good={o (BBoxExtra.goodZoom p)} czoom={o (BBoxExtra.centerZoom p)}"
+    | none => "bad-op"
+  | ["p_fromgeo", a, b, w, s, e, n] => match parseNats [a, b], parseF w, parseF s, parseF e, parseF n with
+    | some [a, b], some w, some s, some e, some n => showO Pyramid.render (BBoxExtra.fromGeoBBox a b ⟨w, s, e, n⟩)
+    | _, _, _, _, _ => "bad-op"
   | _ => "bad-op"
 
 end VtModel.BBoxProto
